@@ -5,6 +5,7 @@ mod expr;
 mod chainrec;
 mod keys;
 mod layout;
+mod params;
 mod limits;
 mod snap;
 mod symrec;
@@ -31,6 +32,7 @@ fn main() {
         "sym-record" => symrec::cmd_record(args[2].parse().unwrap(), &args[3]),
         "tp-replay" => tp::cmd_replay(&args[2], &args[3]),
         "ver-replay" => ver::cmd_replay(&args[2], &args[3]),
+        "params-replay" => params::cmd_replay(&args[2], &args[3]),
         "auth-replay" => auth::cmd_replay(&args[2], &args[3]),
         "dlog-replay" => dlog::cmd_replay(&args[2], &args[3]),
         "chain-honest" => chain::cmd_honest(&args[2], &args[3]),
